@@ -6,7 +6,7 @@ use num::bigint::ToBigInt;
 use num::bigint::{BigInt, Sign};
 use num::complex::Complex64;
 use num::pow::Pow;
-use num::{One, Signed, ToPrimitive, Zero};
+use num::{Signed, ToPrimitive, Zero};
 use std::cmp::Ordering;
 use std::fmt;
 use std::hash::{Hash, Hasher};
@@ -651,38 +651,59 @@ impl NNum {
     }
 }
 
+// Hashing must agree with total_eq: numbers that compare equal hash equally whatever their level,
+// and all NaNs (which total_eq identifies) hash alike.
+const NAN_HASH: u64 = 0x7FF0000000000001u64; // some nan from wikipedia (not that this matters)
+
+fn hash_fraction<H: Hasher>(r: &BigRational, state: &mut H) {
+    BigInt::hash(r.numer(), state);
+    BigInt::hash(r.denom(), state);
+}
+
 fn consistent_hash_f64<H: Hasher>(f: f64, state: &mut H) {
     match to_nint_if_int(f) {
+        // (+/- 0 are handled by the bigint branch)
         Some(s) => NInt::hash(&s, state),
-        None => {
-            if f.is_nan() {
-                // some nan from wikipedia (not that this matters)
-                state.write_u64(0x7FF0000000000001u64)
-            } else {
-                // I *think* this actually obeys the laws...?
-                // (+/- 0 are handled by the bigint branch)
-                f.to_bits().hash(state)
+        None => match BigRational::from_float(f) {
+            // finite non-integer: hash like the equal rational
+            Some(r) => hash_fraction(&r, state),
+            None => {
+                if f.is_nan() {
+                    state.write_u64(NAN_HASH)
+                } else {
+                    // +/- infinity
+                    f.to_bits().hash(state)
+                }
             }
-        }
+        },
+    }
+}
+
+fn consistent_hash_complex<H: Hasher>(re: f64, im: f64, state: &mut H) {
+    consistent_hash_f64(re, state);
+    // x + 0i == x, so a zero imaginary part must not contribute
+    if im != 0.0 {
+        consistent_hash_f64(im, state);
     }
 }
 
 impl NNum {
     pub fn total_hash<H: Hasher>(&self, state: &mut H) {
+        if self.is_nan() {
+            state.write_u64(NAN_HASH);
+            return;
+        }
         match self {
             NNum::Int(a) => NInt::hash(&a, state),
             NNum::Rational(r) => {
-                // TODO: should we make rationals consistent with floats?
-                BigInt::hash(r.numer(), state);
-                if !r.denom().is_one() {
-                    BigInt::hash(r.denom(), state);
+                if r.is_integer() {
+                    NInt::hash(&NInt::from(r.to_integer()), state)
+                } else {
+                    hash_fraction(r, state)
                 }
             }
             NNum::Float(f) => consistent_hash_f64(*f, state),
-            NNum::Complex(z) => {
-                consistent_hash_f64(z.re, state);
-                consistent_hash_f64(z.im, state);
-            }
+            NNum::Complex(z) => consistent_hash_complex(z.re, z.im, state),
         }
     }
 }
